@@ -61,6 +61,18 @@ def document(P, rs, spelling, variant):
     return X.document("c04", v, start=f2(start), stop=f2(stop), dt=dt_xml(rs["dt"], spelling))
 
 
+DISPLAY = {"bf": "bf%", "fo2": "fo2($)", "fin": "fin&In"}     # snake_to_camel of "fin_&_in"
+
+
+def display_names(doc):
+    """the same document with the display names a modelling tool allows for flows: 'bf %', 'fo2 ($)', 'fin & in' (references to
+    them are quoted, blanks written as underscores); the transpiler strips blanks and keeps the other characters"""
+    for name, shown, ref in (("bf", "bf %", '"bf_%"'), ("fo2", "fo2 ($)", '"fo2_($)"'), ("fin", "fin &amp; in", '"fin_&amp;_in"')):
+        doc = doc.replace('<flow name="%s">' % name, '<flow name="%s">' % shown)
+        doc = doc.replace('<inflow>%s</inflow>' % name, '<inflow>%s</inflow>' % ref).replace('<outflow>%s</outflow>' % name, '<outflow>%s</outflow>' % ref)
+    return doc
+
+
 def prime_factors(n):
     out, p = set(), 2
     while n > 1:
@@ -154,6 +166,11 @@ def run(tier, replay_file=None):
                                              runspec={x: str(fr(v)) if isinstance(v, list) else v for x, v in case["rs"].items()}))
                             ok = False
                             break
+                if ok and n % 3 == 1:
+                    # flows with display names outside [A-Za-z0-9_]: same dynamics
+                    simD, _ = X.compile_doc(display_names(document(case["P"], case["rs"], spelling, n)), workdir)
+                    ok = compare(R, case, lambda el, k, t: float(simD.equation(DISPLAY.get(el, el), t)), "flows with display names (%, $, parentheses, &)", stats, extra)
+                    R.add("documents_with_display_names")
                 if ok and n % 3 == 0:
                     # a scenario's run specs reach the transpiled model through SdSimulation.change_runspecs: the run must be reported
                     # on the new grid with the new dt
